@@ -37,9 +37,9 @@ pub proof fn lemma_addr_roundtrip(a: SocketAddr)
 impl Decode<'_> for SocketAddr {
 //@item stun_rs :: mod attributes > mod address_port > impl Decode<'_> for SocketAddr > fn decode
 //@tags C01 C02 C03
-//@before "(IpAddr::from(dst), 4)"
+//@after "dst.clone_from_slice(&buffer[4..8]);"
     proof { assert(dst@ =~= buffer@.subrange(4, 8)); lemma_arr4(dst); }
-//@before "(IpAddr::from(dst), 16)"
+//@after "dst.clone_from_slice(&buffer[4..20]);"
     proof { assert(dst@ =~= buffer@.subrange(4, 20)); lemma_arr16(dst); }
 //@spec
     ensures r is Ok <==> addr_unwire(buffer@) is Some,
